@@ -91,7 +91,7 @@ func c09OpGen(t *rapid.T, l string, m *kit.Model) kit.Op {
 var c09Kinds = []string{"unique-missing", "unique-extra-existing", "unique-extra-missing-id", "unique-wrong-target",
 	"set-missing-id", "set-missing-key", "set-extra-id", "set-extra-missing-id", "set-empty-key",
 	"fk-missing-backref", "fk-extra-backref", "fk-extra-backref-missing-id", "fk-dangling-nullable",
-	"link-one-sided", "link-dangling",
+	"link-one-sided", "link-dangling", "link-dangling-pair", "fk-missing-backref-bucket",
 	"unfixable-duplicate-unique", "unfixable-null-in-non-nullable"}
 
 func sortedIDs(m map[string]*kit.MEnt) []string {
@@ -270,6 +270,33 @@ func genCorruption(t *rapid.T, l string, kind string, m *kit.Model, used map[str
 			return c, false
 		}
 		c.Store, c.ID, c.Other = "things", id, "ghost-id-"+l
+	case "link-dangling-pair":
+		// two dangling links that are neighbours in key order inside one entity's link set
+		id, ok := pickFrom(sortedIDs(m.Ents["things"]))
+		if !ok {
+			return c, false
+		}
+		c.Store, c.ID, c.Other, c.Value = "things", id, "ghost-id-"+l+"-a", "ghost-id-"+l+"-b"
+	case "fk-missing-backref-bucket":
+		// every back-reference of one target is lost at once (the whole set is gone)
+		for _, tid := range sortedIDs(m.Ents["targets"]) {
+			refs := m.Referrers("targets", tid)["things"]
+			if len(refs) == 0 || used[tid] {
+				continue
+			}
+			free := true
+			for _, r := range refs {
+				if used[r] {
+					free = false
+				}
+			}
+			if free {
+				c.Store, c.ID, c.Other = "things", refs[0], tid
+				c.Field = strings.Join(refs, ",")
+				return c, true
+			}
+		}
+		return c, false
 	case "link-one-sided", "link-dangling":
 		var linked []string
 		for _, id := range sortedIDs(m.Ents["things"]) {
@@ -340,7 +367,7 @@ func (c Corruption) mustMention() [][]string {
 		return [][]string{{c.ID, c.Value}}
 	case "set-empty-key":
 		return [][]string{{c.Value}}
-	case "fk-missing-backref", "fk-extra-backref", "fk-extra-backref-missing-id", "fk-dangling-nullable", "link-one-sided", "link-dangling":
+	case "fk-missing-backref", "fk-extra-backref", "fk-extra-backref-missing-id", "fk-dangling-nullable", "link-one-sided", "link-dangling", "link-dangling-pair", "fk-missing-backref-bucket":
 		return [][]string{{c.ID, c.Other}}
 	case "unfixable-duplicate-unique":
 		return [][]string{{c.ID, c.Other, c.Value}}
@@ -357,7 +384,25 @@ func (c Corruption) tokens() []string {
 			out = append(out, s)
 		}
 	}
+	if c.Kind == "fk-missing-backref-bucket" {
+		out = append(out, strings.Split(c.Field, ",")...)
+	}
 	return out
+}
+
+// alsoMustMention lists further reports a compound corruption requires (each entry: tokens of one required report)
+func (c Corruption) alsoMustMention() [][]string {
+	switch c.Kind {
+	case "link-dangling-pair":
+		return [][]string{{c.ID, c.Value}}
+	case "fk-missing-backref-bucket":
+		var out [][]string
+		for _, rid := range strings.Split(c.Field, ",") {
+			out = append(out, []string{rid, c.Other})
+		}
+		return out
+	}
+	return nil
 }
 
 func (c Corruption) unfixable() bool { return strings.HasPrefix(c.Kind, "unfixable") }
@@ -457,6 +502,18 @@ func (c Corruption) apply(tx *bbolt.Tx, m *kit.Model) error {
 		return mustBucket(tx, false, "root", "targets", c.Other, "plinks").Delete(typed(c.ID))
 	case "link-dangling":
 		return mustBucket(tx, true, "root", "things", c.ID, "tlinks").Put(typed(c.Other), nil)
+	case "link-dangling-pair":
+		b := mustBucket(tx, true, "root", "things", c.ID, "tlinks")
+		if err := b.Put(typed(c.Other), nil); err != nil {
+			return err
+		}
+		return b.Put(typed(c.Value), nil)
+	case "fk-missing-backref-bucket":
+		b := mustBucket(tx, false, "root", "targets", c.Other)
+		if b == nil || b.Bucket([]byte("refs_things")) == nil {
+			return fmt.Errorf("no back-reference bucket on %s", c.Other)
+		}
+		return b.DeleteBucket([]byte("refs_things"))
 	case "unfixable-duplicate-unique":
 		// two entities now hold the same unique value
 		return mustBucket(tx, false, "root", c.Store, c.ID).Put([]byte(kit.FName), typed(c.Value))
@@ -646,6 +703,18 @@ func runC09(c c09Case) kit.Result {
 		if !found {
 			res.Err = fmt.Errorf("check-only run did not report %s; reports:\n%s\n%s", co, renderReports(reps), describe())
 			return res
+		}
+		for _, req := range co.alsoMustMention() {
+			ok := false
+			for _, r := range reps {
+				if mentions(r, req) {
+					ok = true
+				}
+			}
+			if !ok {
+				res.Err = fmt.Errorf("check-only run did not report the part %v of %s; reports:\n%s\n%s", req, co, renderReports(reps), describe())
+				return res
+			}
 		}
 	}
 	for _, r := range reps {
